@@ -1,8 +1,8 @@
-from contracts import globals_c, views_cache, views_types, views_nodes, views_build, detopts
+from contracts import globals_c, views_cache, views_types, views_nodes, views_build, detopts, indirect
 
 
 def build(tier):
-    ts = list(globals_c.targets(tier)) + list(detopts.targets(tier))
+    ts = list(globals_c.targets(tier)) + list(detopts.targets(tier)) + indirect.targets_reset(tier)
     # hash-seed clause for cache records: the C11 writers, with the codec engine's order obligation on
     # (a writer that iterates a set in container order fails `codec/deterministic-bytes/set-order`)
     for t in views_cache.targets(tier) + views_types.targets(tier) + views_nodes.targets(tier) + views_build.targets(tier):
